@@ -165,12 +165,13 @@ func (s *AbsfsNFS) LookupWithContext(ctx context.Context, path string) (*NFSNode
 
 	// Use Lstat to get symlink info without following
 	// The filesystem now implements absfs.SymlinkFileSystem which has Lstat
+	gen := s.attrCache.Generation() // what is read now is cached only if nothing is invalidated meanwhile
 	info, err := s.fs.Lstat(path)
 
 	if err != nil {
 		// Store negative cache entry if enabled and error is "not found"
 		if os.IsNotExist(err) {
-			s.attrCache.PutNegative(path)
+			s.attrCache.PutNegativeIfCurrent(path, gen)
 			s.RecordNegativeCacheMiss()
 		}
 		return nil, fmt.Errorf("lookup: failed to stat %s: %w", path, err)
@@ -201,7 +202,7 @@ func (s *AbsfsNFS) LookupWithContext(ctx context.Context, path string) (*NFSNode
 	}
 
 	// Cache the attributes
-	s.attrCache.Put(path, attrs)
+	s.attrCache.PutIfCurrent(path, attrs, gen)
 	return node, nil
 }
 
@@ -218,6 +219,7 @@ func (s *AbsfsNFS) GetAttr(node *NFSNode) (*NFSAttrs, error) {
 
 	// Get fresh attributes using Lstat (to handle symlinks properly)
 	// The filesystem implements absfs.SymlinkFileSystem which has Lstat
+	gen := s.attrCache.Generation()
 	info, err := s.fs.Lstat(node.path)
 
 	if err != nil {
@@ -248,7 +250,7 @@ func (s *AbsfsNFS) GetAttr(node *NFSNode) (*NFSAttrs, error) {
 	attrs.Refresh() // Initialize cache validity
 
 	// Cache the attributes
-	s.attrCache.Put(node.path, attrs)
+	s.attrCache.PutIfCurrent(node.path, attrs, gen)
 	return attrs, nil
 }
 
@@ -795,6 +797,10 @@ func (s *AbsfsNFS) ReadDirWithContext(ctx context.Context, dir *NFSNode) ([]*NFS
 		}
 	}
 
+	var dirGen uint64
+	if s.dirCache != nil {
+		dirGen = s.dirCache.Generation()
+	}
 	f, err := s.fs.OpenFile(dir.path, os.O_RDONLY, 0)
 	if err != nil {
 		return nil, fmt.Errorf("readdir: failed to open directory %s: %w", dir.path, err)
@@ -815,7 +821,7 @@ func (s *AbsfsNFS) ReadDirWithContext(ctx context.Context, dir *NFSNode) ([]*NFS
 
 	// Store entries in cache if enabled
 	if s.dirCache != nil {
-		s.dirCache.Put(dir.path, entries)
+		s.dirCache.PutIfCurrent(dir.path, entries, dirGen)
 	}
 
 	return s.nodesFromEntries(dir, entries), nil
@@ -887,6 +893,7 @@ func (s *AbsfsNFS) ReadDirPlus(dir *NFSNode) ([]*NFSNode, error) {
 	for _, node := range nodes {
 		if attrs, found := s.attrCache.Get(node.path, s); !found || attrs == nil || !attrs.IsValid() {
 			// Lstat: a symbolic link entry is reported as a link, as LOOKUP and GETATTR do
+			gen := s.attrCache.Generation()
 			info, err := s.fs.Lstat(node.path)
 			if err != nil {
 				continue
@@ -910,7 +917,7 @@ func (s *AbsfsNFS) ReadDirPlus(dir *NFSNode) ([]*NFSNode, error) {
 			attrs.SetMtime(modTime)
 			attrs.SetAtime(modTime)
 			attrs.Refresh() // Initialize cache validity
-			s.attrCache.Put(node.path, attrs)
+			s.attrCache.PutIfCurrent(node.path, attrs, gen)
 
 			// Assign attrs with write lock protection
 			node.mu.Lock()
